@@ -520,7 +520,7 @@ func TestC20AgainstRealServer(t *testing.T) {
 		}
 		okv := rapid.Bool().Draw(t, "ok")
 		cbErr := rapid.IntRange(0, 4).Draw(t, "err") == 0
-		mlen := rapid.SampledFrom([]int{0, 5, 253, 254, 256, 300, 65533, 70000}).Draw(t, "msglen")
+		mlen := rapid.SampledFrom([]int{0, 5, 100, 125, 126, 127, 128, 200, 252, 253, 254, 256, 300, 65533, 70000}).Draw(t, "msglen")
 		msg := strings.Repeat("m", mlen)
 		dir, _ := os.MkdirTemp("", "pamreal-")
 		defer os.RemoveAll(dir)
